@@ -160,8 +160,8 @@ theorem mipAdd_clean {base L h} (m cap : Nat) (t : Tracks base L [] h) :
   exact Clean.of (mipDestroy_spec t1 inv1) _ _
 
 /-- The constructor with a destructor-like handler is clean for every `n` and `k`. -/
-theorem mipCtorGuarded_clean {base L h} (n : Nat) (t : Tracks base L [] h) : Clean L (mipCtorGuarded n h) := by
-  unfold mipCtorGuarded
+theorem mipCtor_clean {base L h} (n : Nat) (t : Tracks base L [] h) : Clean L (mipCtor n h) := by
+  unfold mipCtor
   have key : ∀ thr s h1, helperLoop n { buf := none, cap := 0, ptrs := [] } h = (thr, s, h1) →
       Tracks base L [] (mipDestroy s h1) := by
     intro thr s h1 hl
@@ -172,9 +172,9 @@ theorem mipCtorGuarded_clean {base L h} (n : Nat) (t : Tracks base L [] h) : Cle
   · rename_i s h1 hl; exact Clean.of (key _ _ _ hl) _ _
 
 /-- The constructor as written is clean when it does not throw. -/
-theorem mipCtor_clean_of_not_thrown {base L h} (n : Nat) (t : Tracks base L [] h)
-    (hnt : (mipCtor n h).thrown = false) : Clean L (mipCtor n h) := by
-  unfold mipCtor at hnt ⊢
+theorem mipCtorAsWritten_clean_of_not_thrown {base L h} (n : Nat) (t : Tracks base L [] h)
+    (hnt : (mipCtorAsWritten n h).thrown = false) : Clean L (mipCtorAsWritten n h) := by
+  unfold mipCtorAsWritten at hnt ⊢
   split
   · rename_i s h1 hl
     simp only [hl, Outcome.ofHeap] at hnt; cases hnt
@@ -182,9 +182,9 @@ theorem mipCtor_clean_of_not_thrown {base L h} (n : Nat) (t : Tracks base L [] h
     obtain ⟨t1, inv1⟩ := helperLoop_spec n _ h false s h1 (by simpa [CSeq.blocks] using t) emptySeq_inv hl
     exact Clean.of (mipDestroy_spec t1 inv1) _ _
 
-theorem mipCopy_clean_of_not_thrown {base L h} (n : Nat) (t : Tracks base L [] h)
-    (hnt : (mipCopy n h).thrown = false) : Clean L (mipCopy n h) := by
-  unfold mipCopy at hnt ⊢
+theorem mipCopyAsWritten_clean_of_not_thrown {base L h} (n : Nat) (t : Tracks base L [] h)
+    (hnt : (mipCopyAsWritten n h).thrown = false) : Clean L (mipCopyAsWritten n h) := by
+  unfold mipCopyAsWritten at hnt ⊢
   by_cases hn : n = 0
   · simp only [hn, if_true]; exact Clean.of t _ _
   · simp only [hn, if_false] at hnt ⊢
@@ -201,5 +201,30 @@ theorem mipCopy_clean_of_not_thrown {base L h} (n : Nat) (t : Tracks base L [] h
       · rename_i s1 h2 hl
         obtain ⟨t2, inv2⟩ := helperLoop_spec n _ h1 false s1 h2 (by simpa [CSeq.blocks] using t1) inv0 hl
         exact Clean.of (mipDestroy_spec t2 inv2) _ _
+
+end PPLV.Alloc
+
+namespace PPLV.Alloc
+
+/-- Repaired copy constructor: clean for every `n` and `k`. -/
+theorem mipCopy_clean {base L h} (n : Nat) (t : Tracks base L [] h) : Clean L (mipCopy n h) := by
+  unfold mipCopy
+  by_cases hn : n = 0
+  · simp only [hn, if_true]; exact Clean.of t _ _
+  · simp only [hn, if_false]
+    split
+    · rename_i h1 ha
+      exact Clean.of (t.alloc_none ha) _ _
+    · rename_i b h1 ha
+      obtain ⟨t1, _, _⟩ := t.alloc_some ha
+      have inv0 : SeqInv { buf := some b, cap := n, ptrs := [] } := ⟨by simp [CSeq.blocks]⟩
+      have key : ∀ thr s h2, helperLoop n { buf := some b, cap := n, ptrs := [] } h1 = (thr, s, h2) →
+          Tracks base L [] (mipDestroy s h2) := by
+        intro thr s h2 hl
+        obtain ⟨t2, inv2⟩ := helperLoop_spec n _ h1 thr s h2 (by simpa [CSeq.blocks] using t1) inv0 hl
+        exact mipDestroy_spec t2 inv2
+      split
+      · rename_i s1 h2 hl; exact Clean.of (key _ _ _ hl) _ _
+      · rename_i s1 h2 hl; exact Clean.of (key _ _ _ hl) _ _
 
 end PPLV.Alloc
